@@ -173,7 +173,8 @@ class ProjectRegistry:
         for path in sorted(self._directory.rglob("*")):
             if self.is_item(path) is True:
                 rel_parent_path = path.parent.relative_to(self._directory)
-                item_key = (rel_parent_path / path.stem).as_posix()
+                item_name = path.name if path.is_dir() else path.stem
+                item_key = (rel_parent_path / item_name).as_posix()
                 if item_key not in items:
                     items[item_key] = path
                 else:
